@@ -794,3 +794,220 @@ Proof.
   intros Hnd Hc. rewrite (ilp_sp_feasible_iff alts p Hnd Hc), <- (spw_decide_correct alts p Hnd Hc).
   unfold is_single_peaked_ILP_model. simpl. split; [intros ->; reflexivity|intros E; now injection E].
 Qed.
+
+(* ---------------------------------------------------------------------------------------------- *)
+(* 11. approx_SP_voter_deletion_ILP                                                                 *)
+
+Lemma combine_app_eq {A B} (a x : list A) (b y : list B) : length a = length b ->
+  combine (a ++ x) (b ++ y) = combine a b ++ combine x y.
+Proof.
+  revert b. induction a as [|a0 a IH]; intros [|b0 b] E; simpl in *; try discriminate; [reflexivity|].
+  f_equal. apply IH. lia.
+Qed.
+
+Lemma combine_map_repeat {A B C} (g : A -> B) (i : C) l :
+  combine (map g l) (repeat i (length l)) = map (fun k => (g k, i)) l.
+Proof. induction l as [|x l IH]; simpl; [reflexivity|]. now rewrite IH. Qed.
+
+Lemma enumerate_In {T} (p : list T) i v o :
+  In (v, o) (combine (seq i (length p)) p) <-> exists j, v = (i + j)%nat /\ nth_error p j = Some o.
+Proof.
+  revert i. induction p as [|x r IH]; intros i; simpl.
+  - split; [contradiction|]. intros (j & _ & E). destruct j; discriminate.
+  - rewrite IH. split.
+    + intros [E|(j & -> & E)].
+      * injection E as <- <-. exists 0%nat. split; [lia|reflexivity].
+      * exists (S j). split; [lia|exact E].
+    + intros ([|j] & -> & E).
+      * left. simpl in E. injection E as ->. f_equal. lia.
+      * right. exists j. split; [lia|exact E].
+Qed.
+
+Lemma votdel_rows_gen alts p i :
+  combine (sp_matrix alts p)
+          (flat_map (fun vo => repeat (fst vo) (length (snd vo))) (combine (seq i (length p)) p))
+  = flat_map (fun vo => map (fun k => (sp_matrix_row alts (snd vo) k, fst vo)) (seq 0 (length (snd vo))))
+             (combine (seq i (length p)) p).
+Proof.
+  revert i. induction p as [|o r IH]; intros i; [reflexivity|].
+  unfold sp_matrix in *. simpl. rewrite combine_app_eq.
+  - rewrite IH. f_equal. rewrite <- (seq_length (length o) 0) at 2. apply combine_map_repeat.
+  - now rewrite map_length, seq_length, repeat_length.
+Qed.
+
+Lemma remove_idx_from_In V i p o :
+  In o (remove_idx_from V i p) <-> exists j, nth_error p j = Some o /\ mem_nat (i + j) V = false.
+Proof.
+  revert i. induction p as [|x r IH]; intros i; simpl.
+  - split; [contradiction|]. intros (j & E & _). destruct j; discriminate.
+  - destruct (mem_nat i V) eqn:Mi.
+    + rewrite IH. split.
+      * intros (j & E & M). exists (S j). split; [exact E|]. now replace (i + S j)%nat with (S i + j)%nat by lia.
+      * intros ([|j] & E & M).
+        -- rewrite Nat.add_0_r in M. congruence.
+        -- exists j. split; [exact E|]. now replace (S i + j)%nat with (i + S j)%nat by lia.
+    + simpl. rewrite IH. split.
+      * intros [->|(j & E & M)].
+        -- exists 0%nat. split; [reflexivity|]. now rewrite Nat.add_0_r.
+        -- exists (S j). split; [exact E|]. now replace (i + S j)%nat with (S i + j)%nat by lia.
+      * intros ([|j] & E & M).
+        -- left. simpl in E. now injection E.
+        -- right. exists j. split; [exact E|]. now replace (S i + j)%nat with (i + S j)%nat by lia.
+Qed.
+
+(* the objective  sum_v del_v  counts the deleted items *)
+Lemma objective_count (mkv : nat -> var) s i n :
+  (forall v, (i <= v < i + n)%nat -> s (mkv v) = 0 \/ s (mkv v) = 1) ->
+  eval s (map (fun v => (1, mkv v)) (seq i n)) = Z.of_nat (length (filter (fun v => 0 <? s (mkv v)) (seq i n))).
+Proof.
+  revert i. induction n as [|n IH]; intros i H; [reflexivity|].
+  cbn [seq map filter]. change (eval s ((1, mkv i) :: ?l)) with (1 * s (mkv i) + eval s l).
+  rewrite IH by (intros v Hv; apply H; lia).
+  destruct (H i ltac:(lia)) as [E|E]; rewrite E.
+  - change (0 <? 0) with false. cbn iota. lia.
+  - change (0 <? 1) with true. cbn iota. cbn [length]. rewrite Nat2Z.inj_succ. lia.
+Qed.
+
+Lemma mem_nat_filter_seq f n v : (v < n)%nat -> mem_nat v (filter f (seq 0 n)) = f v.
+Proof.
+  intros Hv. apply eq_true_iff_eq. rewrite mem_nat_In, filter_In, in_seq. intuition lia.
+Qed.
+
+Lemma sp_on_axis_nil : sp_on_axis [] [].
+Proof. intros k. rewrite firstn_nil. apply contiguous_nil. Qed.
+
+Section VoterRows.
+Variables (alts axis : list N) (posn : nat -> nat) (s : asg).
+Hypothesis Hnd : NoDup alts.
+Hypothesis Hperm : Permutation alts axis.
+Hypothesis Hpos : forall a, (a < length alts)%nat -> (posn a < length alts)%nat /\ nth (posn a) axis 0%N = nth a alts 0%N.
+Hypothesis Hbin : leftof_binary s (length alts).
+Hypothesis Hlf : forall x y, (x < length alts)%nat -> (y < length alts)%nat -> x <> y ->
+  (s (LeftOf x y) = 1 <-> (posn x < posn y)%nat).
+
+Lemma voter_order_sem v o : complete_on alts o -> s (DelVoter v) = 0 \/ s (DelVoter v) = 1 ->
+  ((forall k, (k < length o)%nat -> forall c, In c (row_cstrs (voter_relax v) (sp_matrix_row alts o k)) -> holds s c)
+   <-> ((0 <? s (DelVoter v)) = true \/ sp_on_axis o axis)).
+Proof.
+  intros Hco Hdv.
+  set (keep := fun _ : N => negb (0 <? s (DelVoter v))).
+  assert (Hrel : forall i j k, (i < length alts)%nat -> (j < length alts)%nat -> (k < length alts)%nat ->
+            if keep (nth i alts 0%N) && keep (nth j alts 0%N) && keep (nth k alts 0%N)
+            then eval s (voter_relax v i j k) = 0 else eval s (voter_relax v i j k) <= -2).
+  { intros i j k _ _ _. unfold keep, voter_relax. cbn [eval fold_right fst snd].
+    destruct Hdv as [E|E]; rewrite E; simpl; lia. }
+  rewrite (order_rows_sem alts axis posn Hnd Hperm Hpos s Hbin Hlf (voter_relax v) keep Hrel o Hco).
+  unfold keep. destruct (0 <? s (DelVoter v)); simpl.
+  - rewrite filter_false, fclasses_false. split; [now left|intros _; apply sp_on_axis_nil].
+  - rewrite filter_true, fclasses_true by now destruct Hco as (_ & ? & _).
+    split; [now right|intros [H|H]; [discriminate|exact H]].
+Qed.
+
+Lemma votdel_cons_sem p : Forall (complete_on alts) p ->
+  (forall v, (v < length p)%nat -> s (DelVoter v) = 0 \/ s (DelVoter v) = 1) ->
+  ((forall c, In c (votdel_cons_cstrs alts p) -> holds s c) <->
+   SPw_axis (remove_idx (decode_voters (length p) s) p) axis).
+Proof.
+  intros Hc Hdv. unfold votdel_cons_cstrs, row_to_voter. rewrite votdel_rows_gen, flat_map_forall.
+  unfold SPw_axis, remove_idx. rewrite Forall_forall in Hc. split.
+  - intros H o Ho. apply remove_idx_from_In in Ho. destruct Ho as (v & Ev & Mv). simpl in Mv.
+    assert (Hv : (v < length p)%nat) by (apply nth_error_Some; congruence).
+    assert (Ho : In o p) by (eapply nth_error_In; eauto).
+    unfold decode_voters in Mv. rewrite mem_nat_filter_seq in Mv by assumption.
+    assert (Hrows : forall k, (k < length o)%nat ->
+              forall c, In c (row_cstrs (voter_relax v) (sp_matrix_row alts o k)) -> holds s c).
+    { intros k Hk c Hcc. apply (H (sp_matrix_row alts o k, v)); [|exact Hcc].
+      apply in_flat_map. exists (v, o). split; [apply enumerate_In; exists v; auto|].
+      cbn [fst snd]. apply in_map_iff. exists k. split; [reflexivity|apply in_seq; lia]. }
+    apply (voter_order_sem v o (Hc o Ho) (Hdv v Hv)) in Hrows. destruct Hrows as [E|E]; [congruence|exact E].
+  - intros H [row v'] Hrv c Hcc. apply in_flat_map in Hrv. destruct Hrv as ([v o] & Hvo & Hrv).
+    cbn [fst snd] in *. apply in_map_iff in Hrv. destruct Hrv as (k & E & Hk). injection E as <- <-.
+    apply in_seq in Hk. apply enumerate_In in Hvo. destruct Hvo as (j & -> & Ej). simpl in *.
+    assert (Hv : (j < length p)%nat) by (apply nth_error_Some; congruence).
+    assert (Ho : In o p) by (eapply nth_error_In; eauto).
+    assert (Hk' : (k < length o)%nat) by lia. clear Hk. revert k Hk' c Hcc. apply (proj2 (voter_order_sem j o (Hc o Ho) (Hdv j Hv))).
+    destruct (0 <? s (DelVoter j)) eqn:Dj; [now left|right]. apply H.
+    apply remove_idx_from_In. exists j. split; [exact Ej|]. simpl. unfold decode_voters.
+    now rewrite mem_nat_filter_seq.
+Qed.
+End VoterRows.
+
+Lemma feasible_votdel_unfold alts p s : feasible (votdel_ilp alts p) s <->
+  structural s (length alts) /\ trans_sem s (length alts) /\
+  (forall v, (v < length p)%nat -> s (DelVoter v) = 0 \/ s (DelVoter v) = 1) /\
+  (forall c, In c (votdel_cons_cstrs alts p) -> holds s c).
+Proof.
+  rewrite feasible_iff. unfold votdel_ilp. cbn [i_vars i_cstrs]. unfold structural, voter_vars.
+  rewrite !forall_in_app, leftof_vars_sem, pos_vars_sem, (binary_vars_sem DelVoter),
+          trans_cstrs_sem, total_cstrs_sem, pos_cstrs_sem. tauto.
+Qed.
+
+Lemma objective_votdel alts p s : (forall v, (v < length p)%nat -> s (DelVoter v) = 0 \/ s (DelVoter v) = 1) ->
+  objective (votdel_ilp alts p) s = Z.of_nat (length (decode_voters (length p) s)).
+Proof.
+  intros H. unfold objective, votdel_ilp, decode_voters. cbn [i_obj]. apply (objective_count DelVoter).
+  intros v Hv. apply H. lia.
+Qed.
+
+Theorem ilp_votdel_sound alts p s : NoDup alts -> Forall (complete_on alts) p ->
+  feasible (votdel_ilp alts p) s ->
+  let V := decode_voters (length p) s in
+  objective (votdel_ilp alts p) s = Z.of_nat (length V) /\
+  cert_vot alts p (length V) (decode_axis alts s) V = true.
+Proof.
+  intros Hnd Hc Hf V. apply feasible_votdel_unfold in Hf. destruct Hf as (Hst & _ & Hdv & Hcons).
+  split; [now apply objective_votdel|].
+  destruct (decode_placement alts s Hnd Hst) as (Hperm & Hpos & Hlf).
+  apply cert_vot_correct; [assumption|assumption|]. unfold V, decode_voters. split; [|split; [|split; [|split]]].
+  - apply NoDup_filter, seq_NoDup.
+  - intros i Hi. apply filter_In in Hi. destruct Hi as [Hi _]. apply in_seq in Hi. lia.
+  - reflexivity.
+  - exact Hperm.
+  - apply (votdel_cons_sem alts _ (posn_of s) s Hnd Hperm Hpos (proj1 Hst) Hlf p Hc Hdv). exact Hcons.
+Qed.
+
+Theorem ilp_votdel_complete alts p k axis V : NoDup alts -> Forall (complete_on alts) p ->
+  cert_vot alts p k axis V = true ->
+  exists s, feasible (votdel_ilp alts p) s /\ objective (votdel_ilp alts p) s = Z.of_nat k /\
+            decode_axis alts s = axis /\ (forall v, In v (decode_voters (length p) s) <-> In v V).
+Proof.
+  intros Hnd Hc Hcert. apply cert_vot_correct in Hcert; [|assumption|assumption].
+  destruct Hcert as (HV & Hrange & Hk & Hperm & Hsp).
+  destruct (axis_placement alts axis (fun v => mem_nat v V) (fun _ => false) Hnd Hperm) as (Hpos & Hst & Htr & Hlf & Hdec).
+  set (s := mk_asg (posn_axis alts axis) (fun v => mem_nat v V) (fun _ => false)) in *.
+  assert (Hdv : forall v, (v < length p)%nat -> s (DelVoter v) = 0 \/ s (DelVoter v) = 1).
+  { intros v _. unfold s, mk_asg. destruct (mem_nat v V); auto. }
+  assert (EV : decode_voters (length p) s = norm_idx (length p) V).
+  { unfold decode_voters, norm_idx. apply filter_ext. intros v. unfold s, mk_asg. now destruct (mem_nat v V). }
+  assert (Hmem : forall v, In v (decode_voters (length p) s) <-> In v V).
+  { intros v. rewrite EV. unfold norm_idx. rewrite filter_In, in_seq, mem_nat_In. split; [tauto|].
+    intros Hv. specialize (Hrange v Hv). split; [lia|assumption]. }
+  exists s. split; [|split; [|split]]; try assumption.
+  - apply feasible_votdel_unfold. split; [assumption|]. split; [assumption|]. split; [assumption|].
+    apply (votdel_cons_sem alts axis (posn_axis alts axis) s Hnd Hperm Hpos (proj1 Hst) Hlf p Hc Hdv).
+    now rewrite EV, remove_idx_norm.
+  - rewrite objective_votdel by assumption. f_equal. rewrite <- Hk. apply Nat.le_antisymm.
+    + rewrite EV. apply norm_idx_length.
+    + apply NoDup_incl_length; [assumption|]. intros v Hv. now apply Hmem.
+Qed.
+
+(* the optimum of the ILP is the minimum number of distinct orders to delete *)
+Theorem ilp_votdel_optimum alts p z : NoDup alts -> Forall (complete_on alts) p ->
+  (ilp_opt (votdel_ilp alts p) z <-> z = Z.of_nat (min_vot_del alts p)).
+Proof.
+  intros Hnd Hc.
+  assert (Hlow : forall s, feasible (votdel_ilp alts p) s -> Z.of_nat (min_vot_del alts p) <= objective (votdel_ilp alts p) s).
+  { intros s Hf. destruct (ilp_votdel_sound alts p s Hnd Hc Hf) as [Eo Hcert]. rewrite Eo.
+    apply cert_vot_valid_bound in Hcert; [|assumption|assumption]. lia. }
+  assert (Hex : exists s, feasible (votdel_ilp alts p) s /\ objective (votdel_ilp alts p) s = Z.of_nat (min_vot_del alts p)).
+  { destruct (min_vot_del_witness alts p) as (V & Hs & Hl & Hok).
+    apply vot_del_ok_correct in Hok; [|assumption|assumption]. destruct Hok as (axis & Hperm & Hsp).
+    assert (Hcert : cert_vot alts p (min_vot_del alts p) axis V = true).
+    { apply cert_vot_correct; [assumption|assumption|]. split; [eapply sublist_NoDup; [exact Hs|apply seq_NoDup]|].
+      split; [|auto]. intros i Hi. apply (sublist_incl _ _ Hs) in Hi. apply in_seq in Hi. lia. }
+    destruct (ilp_votdel_complete alts p _ axis V Hnd Hc Hcert) as (s & Hf & Ho & _). eauto. }
+  split.
+  - intros [(s & Hf & Ho) Hmin]. destruct Hex as (s' & Hf' & Ho').
+    pose proof (Hlow s Hf). pose proof (Hmin s' Hf'). lia.
+  - intros ->. split; [exact Hex|exact Hlow].
+Qed.
